@@ -203,8 +203,18 @@ def doc_parity(repo, rep, P, name, sec, tables, spec, sc) -> int:
     n = 0
     written = {}
     for w in sec.writer:
-        if w.kind == "chunk" and w.cid not in written:
+        if w.kind != "chunk":
+            continue
+        if w.cid not in written:
             written[w.cid] = w
+        else:
+            # several emissions of one chunk id (e.g. the empty SLNK of a module without links): the documented layout is
+            # compared with the emission that carries data, wherever it stands in the source
+            cur = writer_desc(written[w.cid])
+            if cur is not None and cur.get("kind") == "empty":
+                nd = writer_desc(w)
+                if nd is not None and nd.get("kind") != "empty":
+                    written[w.cid] = w
     for cid, w in written.items():
         if cid in ("PEND", "SEND", "CHNM", "CHDT", "CHFF", "CHFR"):
             continue
